@@ -119,6 +119,7 @@ type runner struct {
 	timeoutMs     int
 	xchecked      int
 	xdisagree     []string
+	itemUndis     map[[2]int]int
 }
 
 func verifDir() string { return envOr("QSYM_VERIF", "/verif") }
@@ -149,7 +150,7 @@ func runCheck(args []string) int {
 		return 2
 	}
 	r := &runner{P: P, chk: chk, tier: tier, seed: seed, matched: map[string]int{}, matchedSample: map[string]string{},
-		fnSeen: map[string]bool{}, ranges: map[string][2]int64{}}
+		fnSeen: map[string]bool{}, ranges: map[string][2]int64{}, itemUndis: map[[2]int]int{}}
 	r.cond = sync.NewCond(&r.mu)
 	r.workers, _ = strconv.Atoi(envOr("QSYM_WORKERS", "16"))
 	r.timeoutMs = 10000
@@ -305,6 +306,20 @@ func (r *runner) worker() {
 		}
 		h := r.chk.Harnesses[t.h]
 		it := r.items[t.h][t.item]
+		r.mu.Lock()
+		giveUp := r.itemUndis[[2]int{t.h, t.item}] >= 12
+		if giveUp {
+			// too many inconclusive paths in this work item (unwinding bound / unsupported code): stop
+			// spending time on it; it stays listed as undischarged
+			r.out--
+			if r.out == 0 {
+				r.cond.Broadcast()
+			}
+		}
+		r.mu.Unlock()
+		if giveUp {
+			continue
+		}
 		ex.params, ex.sparams = it.P, it.S
 		ex.known = map[string]bool{}
 		ex.bvInts = h.BV
@@ -355,6 +370,9 @@ func (r *runner) worker() {
 		st.Steps += res.Steps
 		for _, l := range res.Reached {
 			st.Reach[l]++
+		}
+		if len(res.Undischarged) > 0 {
+			r.itemUndis[[2]int{t.h, t.item}] += len(res.Undischarged)
 		}
 		for _, u := range res.Undischarged {
 			if len(st.Undis) < 50 {
